@@ -141,6 +141,10 @@ def gen_steps(r, nops, md_prob=0.10, cut_opts=(True, False, "copy"), scenario=Fa
             if r.random() < 0.15:
                 s += "/nope"
             steps.append({"do": "get", "node": x, "path": s})
+    # every operation is reached through its method or through the dispatcher `.tree(...)` (one or two spellings)
+    for st in steps:
+        if st["do"] in ("add", "force", "graft", "cut", "get"):
+            st["via"] = r.choice(["method", "method", "tree", "tree2"])
     return steps
 
 
